@@ -55,9 +55,9 @@ func init() {
 		},
 		TimeoutSec: func(t string) int {
 			if t == ev.Thorough {
-				return 3600
+				return 5400
 			}
-			return 600
+			return 900
 		},
 		// single-goroutine check: keep the GC from fanning out over all cores
 		Env: func(string, int) []string { return []string{"GOMAXPROCS=2", "GOGC=200"} },
